@@ -312,6 +312,7 @@ type faultWriter struct {
 	failAt int // -1: never
 	short  bool
 	once   bool // the fault hits the one call only; later calls succeed (a sink that recovers: the output has a hole)
+	full   bool // the failing call reports the FULL count together with the error (a relay that took the chunk and could not hand it on): the chunk is lost
 	failed bool
 }
 
@@ -320,6 +321,9 @@ func (w *faultWriter) Write(p []byte) (int, error) {
 	w.calls++
 	if w.failAt >= 0 && i >= w.failAt && (!w.once || i == w.failAt) {
 		w.failed = true
+		if w.full {
+			return len(p), errInjected
+		}
 		if w.short && i == w.failAt && len(p) > 1 {
 			n := len(p) / 2
 			w.buf.Write(p[:n])
@@ -885,7 +889,7 @@ func runWrite(c *h.Ctx, cs Case, b *built, api string) {
 		return
 	}
 	k := cs.K % n
-	fw := &faultWriter{failAt: k, short: cs.FaultKind == "short" || cs.FaultKind == "short-once", once: cs.FaultKind == "fail-once" || cs.FaultKind == "short-once"}
+	fw := &faultWriter{failAt: k, short: cs.FaultKind == "short" || cs.FaultKind == "short-once", once: cs.FaultKind == "fail-once" || cs.FaultKind == "short-once" || cs.FaultKind == "full-count-once", full: cs.FaultKind == "full-count" || cs.FaultKind == "full-count-once"}
 	var werr error
 	var wid cid.Cid
 	if pn, pv, _ := h.Try(func() { wid, werr = writeStream(cs, b, fw) }); pn {
@@ -953,7 +957,7 @@ func draw(t *rapid.T) Case {
 			cs.ErrIdent = rapid.IntRange(0, len(errIdents)-1).Draw(t, "errident")
 		}
 	default:
-		cs.FaultKind = rapid.SampledFrom([]string{"", "fail", "short", "fail-once", "short-once"}).Draw(t, "wfk")
+		cs.FaultKind = rapid.SampledFrom([]string{"", "fail", "short", "fail-once", "short-once", "full-count", "full-count-once"}).Draw(t, "wfk")
 		cs.K = rapid.IntRange(0, 500).Draw(t, "wk")
 	}
 	return cs
@@ -1116,7 +1120,7 @@ func TestFaultEnumeration(t *testing.T) {
 					cs.Op = "writefault"
 					prop.One(t, cs) // clean comparison
 					for k := 0; k < clean.calls; k++ {
-						for _, fk := range []string{"fail", "short", "fail-once", "short-once"} {
+						for _, fk := range []string{"fail", "short", "fail-once", "short-once", "full-count", "full-count-once"} {
 							cs := base
 							cs.Op, cs.FaultKind, cs.K = "writefault", fk, k
 							prop.One(t, cs)
@@ -1192,7 +1196,7 @@ func writeFaultsAtEnds(t *testing.T, base Case) int {
 			continue
 		}
 		seen[k] = true
-		for _, fk := range []string{"fail", "short", "fail-once", "short-once"} {
+		for _, fk := range []string{"fail", "short", "fail-once", "short-once", "full-count", "full-count-once"} {
 			cs := base
 			cs.Op, cs.FaultKind, cs.K = "writefault", fk, k
 			prop.One(t, cs)
